@@ -190,6 +190,67 @@ def run(ctx):
                             ctx.bad(R_stride, "%s|stride" % f.path.split("::")[-2:][0] + "::" + f.path.split("::")[-1], "%s:%d" % (f.file, y.get("ln") or 0), "record position uses stride `%s`" % ", ".join(names),
                                     "for schemas with 8/16-bit fields (record_size != 4 * field_count) record n is read from the wrong place: another record's bytes, or past the end")
 
+    # every access path decodes an array field as an array and a scalar field as a scalar — whatever the array's length: the
+    # condition under which a decoder builds Value::Array is `field.is_array`, evaluated over is_array x array_size in {None,0,1,2,3}
+    R_arr = ctx.rule("C17.array-fields-decoded-as-arrays-on-every-path", "in each per-record decoder the branch that builds Value::Array is taken exactly when field.is_array (for array_size None, 0, 1, 2, 3)", floor=3)
+    from .c10 import _bval as _bv17, _NoEval as _NE17
+    for f in c.fn_list:
+        if not f.hir or f.kind == "Closure" or "::tests::" in f.path or not re.search(r"::(lazy|parallel|mmap|parser|cache)::", f.path):
+            continue
+        body = f.hir["body"]
+        for n_ in hirq.find(body, "if"):
+            builds = any((x.get("k") == "call" and (x.get("fn") or "").endswith("Value::Array")) for x in hirq.walk(n_["then"]))
+            if not builds or "is_array" not in hirq.render(n_["c"]) and "array_size" not in hirq.render(n_["c"]):
+                continue
+            lets_ = {l["pat"]["name"]: l["init"] for l in hirq.find(body, "let") if l["pat"].get("k") == "bind" and l.get("init") is not None}
+            ctx.saw_fn(f)
+            try:
+                bad = None
+                for isarr in (False, True):
+                    for size in (None, 0, 1, 2, 3):
+                        def leaf(r_, size=size):
+                            m_ = re.search(r"array_size\.unwrap_or\((\d+)\)$", r_)
+                            if m_:
+                                return int(m_.group(1)) if size is None else size
+                            return None
+                        got = _bv17(n_["c"], {"__bleaf__": (lambda r_, isarr=isarr: isarr if r_.endswith(".is_array") else None), "__leaf__": leaf}, lets_)
+                        if got != isarr and bad is None:
+                            bad = (isarr, size, got)
+                if bad:
+                    ctx.bad(R_arr, "%s|array-branch" % "::".join(norm(f.path).split("::")[-2:]), "%s:%d" % (f.file, n_.get("ln") or 0), "with is_array=%s and array_size=%s the decoder %s an array (`%s`)" % (bad[0], bad[1], "builds" if bad[2] else "does not build", hirq.render(n_["c"])[:60]),
+                            "this access path returns a bare scalar where the others return a one-element array (or the reverse): the same file reads differently through it")
+                else:
+                    ctx.ok(R_arr, {"fn": "::".join(norm(f.path).split("::")[-2:]), "cond": hirq.render(n_["c"])[:40]})
+            except _NE17 as e:
+                ctx.bad(R_arr, "%s|array-branch-not-evaluable" % norm(f.path).split("::")[-1], "%s:%d" % (f.file, n_.get("ln") or 0), "array branch condition not evaluable: %s" % e, "shape changed")
+
+    # Schema::validate accepts a key index exactly when it names a field: index < fields.len()
+    R_key = ctx.rule("C17.key-index-bound-is-the-field-count", "Schema::validate rejects key index i for a schema of n fields iff i >= n (n in 1..=5, i in 0..=6)", floor=1)
+    sv = next((f for f in c.fn_list if f.hir and f.kind != "Closure" and norm(f.path).endswith("schema::Schema::validate")), None)
+    if sv is None:
+        ctx.bad(R_key, "Schema::validate|missing", "-", "function not found", "anchor gone")
+    else:
+        ctx.saw_fn(sv)
+        kb = next((n_ for n_ in hirq.find(sv.hir["body"], "if") if "index" in hirq.render(n_["c"]) and any(x.get("k") == "ret" and "Err" in hirq.render(x.get("e")) for x in hirq.walk(n_["then"])) and re.search(r"len\(\)|max", hirq.render(n_["c"]))), None)
+        if kb is None:
+            ctx.bad(R_key, "Schema::validate|no-key-check", sv.where, "no bound check on the key field index found", "a key index beyond the fields is accepted (later lookups index out of bounds), or the shape changed")
+        else:
+            lets_ = {l["pat"]["name"]: l["init"] for l in hirq.find(sv.hir["body"], "let") if l["pat"].get("k") == "bind" and l.get("init") is not None}
+            try:
+                bad = None
+                for n in range(1, 6):
+                    for i in range(0, 7):
+                        got = _bv17(kb["c"], {"index": i, "__leaf__": (lambda r_, n=n: n if r_.endswith("fields.len()") else None)}, lets_)
+                        if got != (i >= n) and bad is None:
+                            bad = (i, n, got)
+                if bad:
+                    ctx.bad(R_key, "Schema::validate|key-bound", "%s:%d" % (sv.file, kb.get("ln") or 0), "key index %d of a %d-field schema is %s (`%s`)" % (bad[0], bad[1], "rejected" if bad[2] else "accepted", hirq.render(kb["c"])[:50]),
+                            "a table keyed on its last field is written but cannot be parsed back with the same schema (or an index beyond the fields is accepted)")
+                else:
+                    ctx.ok(R_key, {"cond": hirq.render(kb["c"])[:50], "evaluations": 35})
+            except _NE17 as e:
+                ctx.bad(R_key, "Schema::validate|key-bound-not-evaluable", sv.where, "key bound not evaluable: %s" % e, "shape changed")
+
     R_w = ctx.rule("C17.field-width-tables-agree", "each FieldType variant has the same width in size(), the decoder, the encoder and the default-value arm", floor=4)
     R_h = ctx.rule("C17.header-write-equals-read", "header fields are written in the order and widths they are read", floor=1)
     R_fc = ctx.rule("C17.field-count-rule-agrees", "the writer's field_count counts array elements exactly as Schema::validate does", floor=1)
